@@ -145,7 +145,7 @@ def judgeLine (ws : List String) : String :=
   | "life" :: fate :: toks =>
     -- `open2` / `open3`: a stop hook found its own mailbox still open (never produced by the model:
     -- `closed_during_stop_hooks`)
-    if toks.any (·.startsWith "open") then "reject lifecycle" else
+    if toks.any (fun t => t.startsWith "open" || t.startsWith "stopgranted") then "reject lifecycle" else
     let fate? : Option Fate := match fate with
       | "X" => some .exited | "F" => some .startFailed | "L" => some .unknown | _ => none
     match fate?, allSome (toks.map parseObs) with
